@@ -14,6 +14,7 @@ for d in sorted(glob.glob(os.path.join(V, "seeded", "C*"))):
     rows.append("| %s | %s | %s | %s |" % (m["id"], m["property"], note, caught))
 p = os.path.join(V, "DESIGN.md")
 s = open(p).read()
-s = re.sub(r"<!-- SEED-TABLE-BEGIN -->.*<!-- SEED-TABLE-END -->", "<!-- SEED-TABLE-BEGIN -->\n" + "\n".join(rows) + "\n<!-- SEED-TABLE-END -->", s, flags=re.S)
+block = "<!-- SEED-TABLE-BEGIN -->\n" + "\n".join(rows) + "\n<!-- SEED-TABLE-END -->"
+s = re.sub(r"<!-- SEED-TABLE-BEGIN -->.*<!-- SEED-TABLE-END -->", lambda m: block, s, flags=re.S)
 open(p, "w").write(s)
 print(len(rows) - 2, "rows")
